@@ -296,3 +296,32 @@ func VerifC15OutputUnit() {
 	}
 	vAssert(o.OutputUnit == want, "C15.outputunit: with unit=minimum the output unit is not the unit of the smallest displayed (divided) value")
 }
+
+func init() { vRegister("VerifC09MeanReports", VerifC09MeanReports) }
+
+// VerifC09MeanReports (property C09): report generation with the mean option
+// never crashes, whatever the counts are - zero counts (division by zero),
+// zero values, negative values - for the text-like formats.
+func VerifC09MeanReports() {
+	m := &profile.Mapping{ID: 1, Start: 0x1000, Limit: 0x9000, File: "bin", HasFunctions: true}
+	f1 := &profile.Function{ID: 1, Name: "main", SystemName: "main", Filename: "m.go"}
+	f2 := &profile.Function{ID: 2, Name: "work", SystemName: "work", Filename: "w.go"}
+	l1 := &profile.Location{ID: 1, Mapping: m, Address: 0x1000, Line: []profile.Line{{Function: f1, Line: 1}}}
+	l2 := &profile.Location{ID: 2, Mapping: m, Address: 0x1010, Line: []profile.Line{{Function: f2, Line: 2}}}
+	pool := [][2]int64{{0, 5}, {2, 7}, {0, 0}, {3, -9}}
+	a, b := pool[vChoice("s0", len(pool))], pool[vChoice("s1", len(pool))]
+	p := &profile.Profile{
+		SampleType: []*profile.ValueType{{Type: "count", Unit: "count"}, {Type: "delay", Unit: "nanoseconds"}}, PeriodType: &profile.ValueType{Type: "cpu", Unit: "ns"}, Period: 1,
+		Mapping: []*profile.Mapping{m}, Function: []*profile.Function{f1, f2}, Location: []*profile.Location{l1, l2},
+		Sample: []*profile.Sample{{Location: []*profile.Location{l2, l1}, Value: []int64{a[0], a[1]}, Label: map[string][]string{"k": {"v"}}}, {Location: []*profile.Location{l1}, Value: []int64{b[0], b[1]}}},
+	}
+	formats := []int{Text, Traces, Tree, Tags} // (TopProto writes gzip: outside the engine)
+	format := formats[vChoice("format", len(formats))]
+	rpt := New(p, &Options{OutputFormat: format, SampleType: "delay", SampleUnit: "nanoseconds", OutputUnit: "nanoseconds",
+		SampleValue: func(v []int64) int64 { return v[1] }, SampleMeanDivisor: func(v []int64) int64 { return v[0] }})
+	var buf bytes.Buffer
+	err := Generate(&buf, rpt, nil)
+	vReach("C09.meanreports:generated")
+	vAssert(err == nil, "C09.meanreports.error: generating a report with the mean option failed")
+	vObserve(len(buf.Bytes()) > 0)
+}
